@@ -1624,6 +1624,8 @@ def run(ctx):
     wire_order_suite(ctx)
     samples_suite(ctx)
     asserts_suite(ctx)
+    from props import basis_meas
+    basis_meas.run(ctx, PROP, ['router-sabre', 'router-shortestpaths', 'router-star', 'router-sabre-twice'])
     # failing inputs on the real code
     seen = set()
     for case, calls, bad in failing:
